@@ -399,4 +399,7 @@ def obligations(tier, seed):
         T.append(dict(name="flow/coupling_rqs/init/fwd", func="c18:ob_flow", kwargs=dict(kind="coupling_rqs", layers=1, invert=False, symbolic=False), cost=15))
         T.append(dict(name="flow/bnaf", func="c18:ob_flow", kwargs=dict(kind="bnaf", layers=1, invert=True, symbolic=False), cost=20))
     T.append(dict(name="nan-select", func="c18:ob_nan_select", kwargs={}, cost=3))
+    lv = [n for n in (LEAVES_Q if tier == "quick" else LEAVES_T)]
+    for i in range(0, len(lv), 5):
+        T.append(dict(name=f"translator-validation/{i // 5}", func="tval:ob_validate", kwargs=dict(names=lv[i:i + 5], grads=True, seed=seed), cost=6.0))
     return T
